@@ -187,16 +187,19 @@ static void run_longpw(uint64_t idx, pv_rng* rng) {
     char* nft = pv_nfkd_alloc(tail); size_t tn = strlen(nft); free(nft);
     long target = (long)POLYSEED_STR_SIZE - 1 - (long)(idx % 8);           /* size-8 .. size-1: everything that still fits */
     long front = target - (long)tn; if (front < 1) return;
-    /* every third password is much longer than the buffer as typed and only fits once decomposed (fullwidth letters: three
-     * bytes each, one byte after NFKD): the size limit is about the normalised form, not about what the user typed */
-    bool wide = (idx / 8) % 3 == 0; size_t per = wide ? 3 : 1;
+    /* two passwords in three are much longer than the buffer as typed and only fit once decomposed: fullwidth letters (three bytes
+     * each, one byte after NFKD) or mathematical bold letters (four bytes each, the largest ratio UTF-8 allows): the size limit is
+     * about the normalised form, not about what the user typed */
+    unsigned wide = (unsigned)((idx / 8) % 3); size_t per = wide == 0 ? 3 : wide == 1 ? 4 : 1;
     char* pw = pv_xmalloc((size_t)front * per + tl + 1);
     for (long i = 0; i < front; ++i) {
         int k = (int)((i * 5 + (long)idx) % 26);
-        if (wide) { pw[3 * i] = (char)0xEF; pw[3 * i + 1] = (char)0xBD; pw[3 * i + 2] = (char)(0x81 + k); } else pw[i] = (char)('a' + k);
+        if (wide == 0) { pw[3 * i] = (char)0xEF; pw[3 * i + 1] = (char)0xBD; pw[3 * i + 2] = (char)(0x81 + k); }
+        else if (wide == 1) { pw[4 * i] = (char)0xF0; pw[4 * i + 1] = (char)0x9D; pw[4 * i + 2] = (char)0x90; pw[4 * i + 3] = (char)(0x9A + k); }
+        else pw[i] = (char)('a' + k);
     }
     memcpy(pw + (size_t)front * per, tail, tl + 1);
-    if (wide) PV_COUNT("longpw.typed_longer_than_the_buffer", 1);
+    if (wide < 2) pv_countf(1, "longpw.typed_%zu_times_longer_than_it_normalises", per);
     char* nf = pv_nfkd_alloc(pw); size_t nl = strlen(nf); free(nf);
     if (nl >= POLYSEED_STR_SIZE) { free(pw); return; }
     pv_countf(1, "longpw.nfkd_length.size-%ld", (long)POLYSEED_STR_SIZE - (long)nl);
